@@ -69,6 +69,8 @@ def run(chk):
     physidmask.run(chk)
     from lib import sectionend
     sectionend.run_identity(chk)
+    from lib import addr16
+    addr16.run(chk)
     return chk.finish(
         level="other",
         explanation=("Guard and atomicity rules over the emit paths of /repo's current source: label ids are validated on the "
